@@ -259,6 +259,57 @@ def run(ctx):
                       construct='env-override:%s' % envvars[vk], detail=str(sorted(about))[:80])
     ctx.check(n_ov == 2, 'C19-env', '$TZ and $LOCALTIME each override the zone name once', f, 'found %d override assignments' % n_ov,
               construct='env-override:count')
+    # one leading ':' of the $TZ value is ignored: every path from the $TZ override to a use of the name (the comparison
+    # with "localtime", the name handed to the loader) passes the test of its first character against ':'
+    g = ctx.cfg(f)
+    for x in walk(f):
+        if not (x.get('kind') == 'BinaryOperator' and x.get('opcode') == '=' and F.keys.key(kids(x)[1]) in envvars and
+                envvars[F.keys.key(kids(x)[1])] == 'TZ'):
+            continue
+        zk = F.keys.key(kids(x)[0])
+        zid = (peel(kids(x)[0]).get('referencedDecl') or {}).get('id')
+        strips = []
+        for n in g.live:
+            if n.kind != 'cond':
+                continue
+            for (op, a, b) in list(F.cond_facts(n.ast, True)) + list(F.cond_facts(n.ast, False)):
+                if op in ('==', '!=') and 'n:58' in (a, b) and (a if b == 'n:58' else b) in ('*(%s)' % zk, '%s[n:0]' % zk, '*%s' % zk):
+                    strips.append(n)
+        uses = []
+        for y in walk(f):
+            if y.get('kind') == 'CallExpr' and callee(y) and callee(y)[0] == 'fn' and callee(y)[1].get('name') in ('strcmp', 'strncmp') and \
+                    any(F.keys.key(a_) == zk for a_ in call_args(y)):
+                uses.append(y)
+            if y.get('kind') == 'VarDecl' and 'basic_string' in ((dtype(y) or '') + (qtype(y) or '')) and kids(y) and \
+                    any(z.get('kind') == 'DeclRefExpr' and (z.get('referencedDecl') or {}).get('id') == zid for z in walk(kids(y)[-1])):
+                uses.append(y)
+            if y.get('kind') in ('CallExpr',) and callee(y) and callee(y)[0] == 'fn' and callee(y)[1].get('name') == 'load_time_zone' and \
+                    any(z.get('kind') == 'DeclRefExpr' and (z.get('referencedDecl') or {}).get('id') == zid for a_ in call_args(y) for z in walk(a_)):
+                uses.append(y)
+        starts = g.nodes_for(x)
+        targets = set(n_.id for y in uses for n_ in g.nodes_for(y))
+        if not uses or not starts or not targets:
+            ctx.unknown('C19-env', 'one leading colon of $TZ is ignored', x, 'the uses of the zone name after the $TZ override were not found',
+                        construct='env-colon')
+            continue
+        cut = set(n_.id for n_ in strips)
+        seen = set()
+        stack = [m_ for s_ in starts for (m_, _) in s_.succs]
+        leak = None
+        while stack:
+            n_ = stack.pop()
+            if n_.id in seen or n_.id in cut:
+                continue
+            seen.add(n_.id)
+            if n_.id in targets:
+                leak = n_
+                break
+            stack.extend(m_ for (m_, _) in n_.succs)
+        ctx.check(leak is None and bool(strips), 'C19-env', 'one leading colon of the $TZ value is ignored before the name is used', x,
+                  'a value taken from $TZ reaches %s without its first character having been tested against \':\': TZ=":Zone" is '
+                  'looked up with the colon (and fails over to UTC), TZ=":localtime" is not mapped to the system zone'
+                  % (('the use at %s' % pos(leak.ast)) if leak is not None and leak.ast is not None else 'its uses'), construct='env-colon',
+                  detail='%d colon test(s), %d use(s)' % (len(strips), len(uses)))
     # leap-second ("right/") data is rejected
     kl = G.one('cctz::TimeZoneInfo::Load', 'ZoneInfoSource')
     ul, fl = G.defs[kl]
@@ -382,5 +433,5 @@ def run(ctx):
     for lit in ('":localtime"', '"localtime"', '"/etc/localtime"'):
         ctx.check(lit in lits, 'C19-env', 'local_time_zone uses %s' % lit, f,
                   'the documented default %s is not used by local_time_zone' % lit, construct='lit:%s' % lit)
-    ctx.minimum('C19-env', 10)
+    ctx.minimum('C19-env', 11)
     ctx.minimum('C19-data', 2)
